@@ -1294,15 +1294,15 @@ func (t *tree) errorf(format string, args ...interface{}) {
 		tok = t.token[t.peekCount-1]
 	}
 	t.root = nil
-	format = fmt.Sprintf("template %s:%d:%d: %s", t.name,
-		t.lex.lineNumber(tok.pos), t.lex.columnNumber(tok.pos), format)
+	// the file name is text, not part of the format: it may contain '%'
+	var msg = fmt.Sprintf(format, args...)
 	panic(
 		errortypes.NewErrFilePosf(
 			t.name,
 			t.lex.lineNumber(tok.pos),
 			t.lex.columnNumber(tok.pos),
-			format,
-			args...,
+			"template %s:%d:%d: %s",
+			t.name, t.lex.lineNumber(tok.pos), t.lex.columnNumber(tok.pos), msg,
 		),
 	)
 }
